@@ -138,6 +138,9 @@ func (fr *FuncRun) callInvoke(f *Frame, st *State, c *ssa.CallCommon, name strin
 	if h, ok := fr.specialInvoke(f, st, c, recv, args, pos); ok {
 		return h
 	}
+	if ec := fr.eng.contracts.externs[full]; ec != nil {
+		return fr.applyContract(f, st, ec, nil, c.Method, append([]Val{recv}, args...), pos, name)
+	}
 	// interface-level contract
 	if ic := fr.eng.contracts.lookupMethod(c.Method); ic != nil {
 		return fr.applyContract(f, st, ic, nil, c.Method, append([]Val{recv}, args...), pos, name)
